@@ -8,6 +8,7 @@ import ast as _ast, os as _os
 
 def _c05_sites():
     known = {("portrefs", "create_source"): "ResolvePortRefs", ("portrefs", "replace_noconn"): "ResolvePortRefs",
+             ("portrefs", "noconn_array_bundle"): "ResolvePortRefs",
              ("flatten_bundles", "replace_bundle_inst"): "BundleFlattener", ("arrays", "elaborate_module"): "ArrayFlattener",
              ("inst_bundles", "elaborate_instance_bundle"): "InstBundleElabPass"}
     pdir = _os.path.join(repo, "hdl21/elab/passes")
